@@ -140,7 +140,9 @@ pub struct PoolImpl {
     /// Keeps track of which slots are finalized.
     finality_tracker: FinalityTracker,
     /// Keeps track of safe-to-notar blocks waiting for a parent certificate.
-    s2n_waiting_parent_cert: BTreeMap<BlockId, BlockId>,
+    ///
+    /// Maps the parent to all of its children that are waiting for it to be certified.
+    s2n_waiting_parent_cert: BTreeMap<BlockId, Vec<BlockId>>,
 
     /// Information about all active validators.
     epoch_info: Arc<ValidatorEpochInfo>,
@@ -239,19 +241,23 @@ impl PoolImpl {
         self.send_votor_event(event).await;
     }
 
-    /// Notifies the child block (if any) waiting for `parent` to be certified.
+    /// Notifies the child blocks (if any) waiting for `parent` to be certified.
     ///
     /// Should be called whenever a certificate arrives that certifies `parent`
     /// as at least notarized-fallback (see [`SlotState::is_notar_fallback_or_stronger`]).
     async fn notify_waiting_child(&mut self, parent: &BlockId) {
-        if let Some((child_slot, child_hash)) = self.s2n_waiting_parent_cert.remove(parent)
-            && let Some(output) = self
+        let Some(children) = self.s2n_waiting_parent_cert.remove(parent) else {
+            return;
+        };
+        for (child_slot, child_hash) in children {
+            if let Some(output) = self
                 .slot_state(child_slot)
                 .notify_parent_certified(child_hash)
-        {
-            match output {
-                Either::Left(event) => self.send_votor_event(event).await,
-                Either::Right((slot, hash)) => self.send_repair((slot, hash)).await,
+            {
+                match output {
+                    Either::Left(event) => self.send_votor_event(event).await,
+                    Either::Right((slot, hash)) => self.send_repair((slot, hash)).await,
+                }
             }
         }
     }
@@ -548,7 +554,10 @@ impl Pool for PoolImpl {
             }
             return;
         }
-        self.s2n_waiting_parent_cert.insert(parent_id, block_id);
+        self.s2n_waiting_parent_cert
+            .entry(parent_id)
+            .or_default()
+            .push(block_id);
     }
 
     /// Triggers a recovery from a standstill.
